@@ -335,6 +335,7 @@ impl Scn
         }
 
         self.user_tick();
+        start["state"] = self.state();
         self.out.push(start);
         let names = self.thread_names(&goal_opt, is_build);
         {
